@@ -301,8 +301,11 @@ func mergeCryptoDynMap(ab *cmdsPair, name, prefix string) {
 
 func mergeCryptoCommon(ab *cmdsPair, al, bl []*cmd) []*cmd {
 	key := func(c *cmd) [2]string {
+		// IOS: 'crypto map $NAME $SEQ ipsec-isakmp' has only 5 words.
+		var k [2]string
 		tokens := strings.Split(c.parsed, " ")
-		return [2]string(tokens[4:6])
+		copy(k[:], tokens[min(4, len(tokens)):])
+		return k
 	}
 	var add []*cmd
 	m := make(map[[2]string]*cmd)
